@@ -313,6 +313,8 @@ static struct Register {
 #endif
 #if SEL(2)
 		addUnit<TQueue<MT> >("C15/EventQueue/multi", 0, c, 5, 8);
+		// SpinLock as the mutex of target and remover (the remover embeds one for its item list)
+		addUnit<TQueue<eventpp::GeneralThreading<eventpp::SpinLock, std::atomic, std::condition_variable_any> > >("C15/EventQueue/spinlock", 0, c, 4, 7);
 #endif
 	}
 } reg;
